@@ -122,6 +122,16 @@ def drive_retrieval_clients(ctx, tier):
         _retrieve(g['target'])
         for c in g.get('callee_objs', ()):
             _retrieve(c)
+        # ... and through partial objects over them: binding nothing, a keyword nobody names, one positional
+        import functools
+        for o in (g['target'], g.get('raw_outer')):
+            if o is None:
+                continue
+            _retrieve(functools.partial(o))
+            if rnd.random() < 0.3:
+                _retrieve(functools.partial(functools.partial(o)))
+            if rnd.random() < 0.3:
+                _retrieve(functools.partial(o, 0))
 
 
 def drive_modifiers(ctx, tier):
